@@ -10,6 +10,7 @@ import (
 	_ "verif/checks/c04"
 	_ "verif/checks/c05"
 	_ "verif/checks/c06"
+	_ "verif/checks/c07"
 	_ "verif/checks/c11"
 	_ "verif/checks/c12"
 	_ "verif/checks/c13"
